@@ -111,7 +111,17 @@ pub fn gen_failing(t: &mut Tape, spec: &SpecTable, open: &[u64]) -> Option<(WOp,
             let m = ms[t.below(ms.len())];
             let mut chain = open.to_vec();
             chain.push(m.id);
-            let bad = bad_child(t, spec, &chain)?;
+            let bad = if t.chance(1, 3) {
+                // a raw child whose id is not a well-formed EBML id
+                let id = *t.pick(&[0u64, 1, 0x7F, 0x1FF, 0x8000, 0x3FFF, 1 << 63, u64::MAX, 0x4a]);
+                if spec.get(id).is_some() || ref_is_wellformed_id(id) {
+                    bad_child(t, spec, &chain)?
+                } else {
+                    Flat::Leaf(id, Payload::Raw(t.bytes(2)))
+                }
+            } else {
+                bad_child(t, spec, &chain)?
+            };
             let n = t.below(4);
             let mut ch = good_children(t, spec, &chain, n);
             let pos = match t.below(3) {
